@@ -1,41 +1,100 @@
 (* C34 — Volume server access control with signed tokens.
    Only statements closed by [exact]; proofs live in proof/JwtProofs.v.  The model
-   (model/Jwt.v) is the code as it is — with the repair of finding C34/0 in PostHandler
-   (an upload whose own reading of the path gives another needle than the checked file
-   id is answered 400); the JWT library is an oracle (token facts).
+   (model/Jwt.v) is the code as it is: parseURLPath, the upload's own path reader, GetJwt,
+   maybeCheckJwtAuthorization and the order of the steps of the three HTTP handlers,
+   NewVolumeId / ParseNeedleIdCookie / ParsePath / ParseFileIdFromString as numbers; the JWT
+   library is an oracle (token facts).
 
    c34_accept_sound (FULL): whenever the key of the request's class (write key for
    POST/PUT/DELETE, read key for GET/HEAD) is configured and a handler reaches the
    store, the request carries a well-formed, unexpired HMAC token signed with THAT key
-   whose fid claim is textually "<vid>,<fid>" (after _n stripping) of the file the
-   store operation addresses.
+   whose fid claim is textually "<vid>,<fid>" (after _n stripping) of the path.
+   c34_names_target: that claim DENOTES (ParseFileIdFromString) the volume, cookie and - up to
+   the added _delta - needle id the store operation is called with: FULL for GET/HEAD/POST/PUT,
+   REFUTED for DELETE (finding C34/0: parse errors ignored), PARTIAL outside trig_delete_unparsed.
    c34_reject_before_touch (FULL): a request whose check fails never reaches the store. *)
 From Coq Require Import List NArith Bool String.
 From SW Require Import model.Jwt proof.JwtProofs.
 Import ListNotations.
 Local Open Scope string_scope.
 
-Theorem c34_accept_sound : forall tab cfg rq v f,
+Theorem c34_accept_sound : forall tab cfg rq v f a,
   key_for cfg (is_write_method (rq_method rq)) <> "" ->
-  handle tab cfg rq = Proceed v f ->
+  handle tab cfg rq = Proceed v f a ->
   valid_token_for tab (key_for cfg (is_write_method (rq_method rq))) rq (v ++ "," ++ strip_suffix f).
 Proof. exact accept_sound. Qed.
 Print Assumptions c34_accept_sound.
 
-(* what "Proceed v f" stands for: v,f are parseURLPath's reading of the path, the check passed on
-   them, an upload's needle is the needle f denotes, writes come through the private port and
-   past the white list *)
-Theorem c34_proceed_authorized : forall tab cfg rq v f, handle tab cfg rq = Proceed v f ->
+(* what "Proceed v f a" stands for: v,f are parseURLPath's reading of the path, the check passed on
+   them; for reads and uploads a is what NewVolumeId v / ParsePath f give (both succeed), an upload's
+   own needle (CreateNeedleFromRequest) is that same needle; for a delete a is whatever the parsers left
+   (errors ignored); writes come through the private port and past the white list *)
+Theorem c34_proceed_authorized : forall tab cfg rq v f a, handle tab cfg rq = Proceed v f a ->
   parse_url_path (rq_path rq) = Some (v, f) /\
   check_jwt tab cfg (is_write_method (rq_method rq)) rq v f = true /\
-  (is_upload (rq_method rq) = true -> rq_same_needle rq = true) /\
+  (is_delete (rq_method rq) = false ->
+     exists vol id ck, parse_vid v = Some vol /\ parse_path f = Some (id, ck) /\ a = (vol, id, ck)) /\
+  (is_upload (rq_method rq) = true ->
+     exists u, upload_fid (rq_path rq) = Some u /\ parse_path u = parse_path f) /\
+  (is_delete (rq_method rq) = true ->
+     a = (match parse_vid v with Some x => x | None => 0%N end,
+          fst (fst (parse_path_st f)), snd (fst (parse_path_st f)))) /\
   (is_write_method (rq_method rq) = true -> rq_public rq = false /\ whitelist_blocks cfg rq = false).
 Proof. exact proceed_authorized. Qed.
 Print Assumptions c34_proceed_authorized.
 
-(* the repair: an upload addressed (by its own path reader) to another needle is refused *)
-Theorem c34_upload_other_needle_refused : forall tab cfg rq,
-  is_upload (rq_method rq) = true -> rq_same_needle rq = false ->
+(* "names the target file", full statement REFUTED (finding C34/0): the store is reached under a
+   configured key although the presented token's claim denotes no file *)
+Theorem c34_names_target_refuted : exists tab cfg rq v f a,
+  key_for cfg (is_write_method (rq_method rq)) <> "" /\
+  handle tab cfg rq = Proceed v f a /\
+  forall t, lookup (get_jwt rq) tab = Some t -> claim_den (t_fid t) = None.
+Proof. exact names_target_refuted. Qed.
+Print Assumptions c34_names_target_refuted.
+
+(* PARTIAL: outside the per-request trigger (DELETE whose volume id or base file id does not parse) the
+   compared text denotes the volume and cookie the store is called with and the needle id up to the
+   _delta ParsePath adds: "ignoring the sub-file suffix" means a token for key k opens key k+n *)
+Theorem c34_names_target_partial : forall tab cfg rq v f a,
+  handle tab cfg rq = Proceed v f a -> trig_delete_unparsed rq = false ->
+  exists vol id ck d, claim_den (v ++ "," ++ strip_suffix f) = Some (vol, id, ck) /\
+  a = (vol, ((id + d) mod 2 ^ 64)%N, ck).
+Proof. exact proceed_names_target. Qed.
+Print Assumptions c34_names_target_partial.
+
+Theorem c34_accept_names_target_partial : forall tab cfg rq v f a,
+  key_for cfg (is_write_method (rq_method rq)) <> "" ->
+  handle tab cfg rq = Proceed v f a -> trig_delete_unparsed rq = false ->
+  exists t vol id ck d, lookup (get_jwt rq) tab = Some t /\
+  decode_ok (key_for cfg (is_write_method (rq_method rq))) t = true /\
+  claim_den (t_fid t) = Some (vol, id, ck) /\ a = (vol, ((id + d) mod 2 ^ 64)%N, ck).
+Proof. exact accept_names_target. Qed.
+Print Assumptions c34_accept_names_target_partial.
+
+(* FULL for reads and uploads of a file id without _suffix: the claim denotes exactly the addressed needle *)
+Theorem c34_names_exact : forall tab cfg rq v f a,
+  handle tab cfg rq = Proceed v f a -> is_delete (rq_method rq) = false -> no_us f = true ->
+  claim_den (v ++ "," ++ strip_suffix f) = Some a.
+Proof. exact proceed_names_exact. Qed.
+Print Assumptions c34_names_exact.
+
+(* the numbers behind the texts *)
+Theorem c34_claim_den_app : forall v b vol id ck,
+  parse_vid v = Some vol -> parse_nic b = Some (id, ck) -> claim_den (v ++ "," ++ b) = Some (vol, id, ck).
+Proof. exact claim_den_app. Qed.
+Print Assumptions c34_claim_den_app.
+
+Theorem c34_suffix_adds : forall base n id ck d,
+  no_us n = true -> n <> "" -> parse_nic base = Some (id, ck) -> parse_uint false 64 n = Some d ->
+  parse_path (base ++ String c_us n) = Some (((id + d) mod 2 ^ 64)%N, ck).
+Proof. exact parse_path_suffix_adds. Qed.
+Print Assumptions c34_suffix_adds.
+
+(* the repair in PostHandler: an upload addressed (by its own path reader) to another needle is refused *)
+Theorem c34_upload_other_needle_refused : forall tab cfg rq v f u,
+  is_upload (rq_method rq) = true ->
+  parse_url_path (rq_path rq) = Some (v, f) -> upload_fid (rq_path rq) = Some u ->
+  parse_path u <> parse_path f ->
   is_proceed (handle tab cfg rq) = false.
 Proof. exact upload_other_needle_refused. Qed.
 Print Assumptions c34_upload_other_needle_refused.
@@ -47,7 +106,7 @@ Theorem c34_reject_before_touch : forall tab cfg rq vid fid,
   parse_url_path (rq_path rq) = Some (vid, fid) ->
   check_jwt tab cfg (is_write_method (rq_method rq)) rq vid fid = false ->
   handle tab cfg rq = Unauthorized \/
-  (handle tab cfg rq = BadRequest /\ is_upload (rq_method rq) = true /\ rq_vid_ok rq = false) \/
+  (handle tab cfg rq = BadRequest /\ is_upload (rq_method rq) = true /\ parse_vid vid = None) \/
   (handle tab cfg rq = NoRoute /\ is_write_method (rq_method rq) = true /\ rq_public rq = true).
 Proof. exact reject_before_touch. Qed.
 Print Assumptions c34_reject_before_touch.
@@ -98,35 +157,43 @@ Theorem c34_suffix_ignored : forall tab cfg w rq vid base n,
 Proof. exact check_jwt_suffix. Qed.
 Print Assumptions c34_suffix_ignored.
 
-(* acceptance implies the reference used by the correspondence check *)
-Theorem c34_proceed_allowed : forall tab cfg rq presented v f,
-  In (get_jwt rq) presented ->
-  (forall t, lookup (get_jwt rq) tab = Some t ->
-             t_fid t = v ++ "," ++ strip_suffix f -> t_names_target t = true) ->
-  handle tab cfg rq = Proceed v f -> spec_allows tab cfg rq presented = true.
-Proof. exact proceed_allowed. Qed.
-Print Assumptions c34_proceed_allowed.
+(* the run of finding C34/0 and, beside it, the same path on GET and PUT (refused with 400) *)
+Example c34_refuted_run :
+  trig_delete_unparsed r_rq = true /\
+  handle r_tab w_cfg r_rq = Proceed "x3" "01637037d6" (0, 1, 1668298710)%N /\
+  store_step (handle r_tab w_cfg r_rq) DELETE
+    {| w_vols := [0%N; 3%N]; w_live := [{| n_vol := 0; n_id := 1; n_ck := 1668298710; n_content := 1 |}] |}
+  = {| e_status := 202; e_live := []; e_disclosed := [] |} /\
+  handle [("T", mk_tok "3,zz637037d6")] w_cfg (mk_rq DELETE "/3,zz637037d6") = Proceed "3" "zz637037d6" (3, 0, 0)%N /\
+  handle r_tab w_cfg (mk_rq GET "/x3,01637037d6") = BadRequest /\
+  handle r_tab {| write_key := ""; read_key := w_key; wl_active := false |} (mk_rq GET "/x3,01637037d6") = BadRequest /\
+  handle r_tab w_cfg (mk_rq PUT "/x3,01637037d6") = BadRequest.
+Proof. exact refuted_run. Qed.
+Print Assumptions c34_refuted_run.
 
-(* the former witness of finding C34/0 is now refused with 400 before the store *)
+(* the former defect of PostHandler (token for file 1, file name carrying file 2) is refused with 400 *)
 Example c34_repaired_witness :
   parse_url_path (rq_path w_rq) = Some ("3", "01637037d6") /\
   upload_fid (rq_path w_rq) = Some "02637037d6" /\
+  parse_path "01637037d6" = Some (1, 1668298710)%N /\ parse_path "02637037d6" = Some (2, 1668298710)%N /\
   handle [("T", w_tok)] w_cfg w_rq = BadRequest.
 Proof. exact repaired_witness. Qed.
+Print Assumptions c34_repaired_witness.
 
-(* non-vacuity; and the comparison is textual, so "03,..." is refused (stricter than needed) *)
+(* non-vacuity (the hypotheses of c34_names_target_partial hold on the first request, which addresses
+   needle 2 under the token of needle 1 through "_1"); the comparison is textual, so "03,..." is refused
+   although it denotes the same file (stricter than needed) *)
 Example c34_example :
   let rq := {| rq_public := false; rq_method := DELETE; rq_query_jwt := ""; rq_auth := "Bearer T";
-               rq_path := "/3,01637037d6_1"; rq_vid_ok := true; rq_fid_ok := true; rq_upfid_ok := true;
-               rq_same_needle := true; rq_wl_pass := false |} in
-  let up := {| rq_public := false; rq_method := PUT; rq_query_jwt := "T"; rq_auth := "";
-               rq_path := "/3,01637037d6.txt"; rq_vid_ok := true; rq_fid_ok := true; rq_upfid_ok := true;
-               rq_same_needle := true; rq_wl_pass := false |} in
-  handle [("T", w_tok)] w_cfg rq = Proceed "3" "01637037d6_1" /\
-  handle [("T", w_tok)] w_cfg up = Proceed "3" "01637037d6" /\
-  handle [("T", {| t_wellformed := true; t_alg := AlgHMAC; t_signed_with := w_key; t_exp_ok := true; t_nbf_ok := true;
-                   t_iat_ok := true; t_fid := "03,01637037d6"; t_names_target := true |})] w_cfg rq = Unauthorized /\
+               rq_path := "/3,01637037d6_1"; rq_wl_pass := false |} in
+  let up := mk_rq PUT "/3,01637037d6.txt" in
+  handle [("T", w_tok)] w_cfg rq = Proceed "3" "01637037d6_1" (3, 2, 1668298710)%N /\
+  handle [("T", w_tok)] w_cfg up = Proceed "3" "01637037d6" (3, 1, 1668298710)%N /\
+  trig_delete_unparsed rq = false /\
+  claim_den "3,01637037d6" = Some (3, 1, 1668298710)%N /\ claim_den "03,01637037d6" = Some (3, 1, 1668298710)%N /\
+  handle [("T", mk_tok "03,01637037d6")] w_cfg rq = Unauthorized /\
   handle [("T", {| t_wellformed := true; t_alg := AlgNone; t_signed_with := ""; t_exp_ok := true; t_nbf_ok := true;
-                   t_iat_ok := true; t_fid := "3,01637037d6"; t_names_target := true |})] w_cfg rq = Unauthorized /\
+                   t_iat_ok := true; t_fid := "3,01637037d6"; t_den := None; t_names_target := true |})] w_cfg rq = Unauthorized /\
   handle [] w_cfg rq = Unauthorized.
 Proof. exact accept_example. Qed.
+Print Assumptions c34_example.
